@@ -125,6 +125,26 @@ def dat_files(rng, n):
     return out
 
 
+def wide_dat_files(rng, n):
+    """DAT files with many channels (real mud-log exports declare hundreds): long declaration sections and header lines, so
+    that the header line and the first data row fall at every kind of offset (the answer must not depend on size)"""
+    out = []
+    for i in range(n):
+        nch = rng.choice([30, 60, 100, 125, 140, 200, 246, 300, 420])
+        names = ['C%03d' % k for k in range(nch)]
+        dlen = rng.choice([4, 12, 25, 40])
+        lines = ['UTIM Unix Time sec', 'DATE Date ddmmyy', 'TIME Time hhmmss']
+        for nm in names:
+            lines.append('%s %s %s' % (nm, ('channel %s ' % nm + 'x' * dlen)[:max(9, dlen)].strip(), rng.choice(['inch', 'g/cc', 'ppm', 'm/hr'])))
+        lines.append(rng.choice([' ', '\t', '   ']).join(['UTIM', 'DATE', 'TIME'] + names))
+        nrows = rng.choice([1, 2, 10])
+        for r in range(nrows):
+            lines.append(' '.join(['%d' % (1165665017 + 60 * r), '09Dec06', '11-50-%02d' % r] + [rng.choice(['0', '8.50', '-1.25', '1e3']) for _ in names]))
+        text = '\n'.join(lines) + '\n'
+        out.append(('DAT', text.encode('ascii'), dict(fmt='DAT', rows=nrows, channels=nch, header_at=len('\n'.join(lines[:3 + nch])) + 1)))
+    return out
+
+
 def run(ctx):
     repo.setup()
     from ..core import quiet_logging
@@ -134,7 +154,7 @@ def run(ctx):
     ctx.tlc_check('MC_FileType', 'FileType', defs='ASSUME OwnType /\\ ExclusionIsReal /\\ AlwaysDocumented', coverage=False, timeout=600)
     codes = set(B.BINARY_FILE_TYPES_SUPPORTED)
     n = ctx.pick(150, 1200)
-    files = rp66_files(rng, n) + lis_files(rng, n) + las_files(rng, n) + bit_files(rng, max(8, n // 4)) + dat_files(rng, n)
+    files = rp66_files(rng, n) + lis_files(rng, n) + las_files(rng, n) + bit_files(rng, max(8, n // 4)) + dat_files(rng, n) + wide_dat_files(rng, max(12, n // 3))
     wd = ctx.wdir('files')
     slow = 0.0
     per_class = {}
